@@ -89,13 +89,97 @@ class Aff:
         return "Aff(%r)" % (self.to_iv(),)
 
 
+class D:
+    """interval value with an interval gradient w.r.t. the input coordinates (forward mode);
+    used for the centred (mean-value) form and the monotonicity test of the branch-and-bound"""
+    __slots__ = ("v", "g")
+
+    def __init__(self, v, g):
+        self.v, self.g = v, g
+
+    @staticmethod
+    def var(i, n, iv):
+        return D(iv, [I(1.0) if k == i else I(0.0) for k in range(n)])
+
+    @staticmethod
+    def const(v, n):
+        return D(as_iv(v), [I(0.0)] * n)
+
+    def __repr__(self):
+        return "D(%r)" % (self.v,)
+
+
+def _dlift(x, n):
+    return x if isinstance(x, D) else D.const(x, n)
+
+
+def d_binop(op, a, b):
+    n = len(a.g) if isinstance(a, D) else len(b.g)
+    a, b = _dlift(a, n), _dlift(b, n)
+    if op is ast.Add:
+        return D(a.v + b.v, [x + y for x, y in zip(a.g, b.g)])
+    if op is ast.Sub:
+        return D(a.v - b.v, [x - y for x, y in zip(a.g, b.g)])
+    if op is ast.Mult:
+        return D(a.v * b.v, [x * b.v + a.v * y for x, y in zip(a.g, b.g)])
+    if op is ast.Div:
+        v = a.v / b.v
+        return D(v, [(x - v * y) / b.v for x, y in zip(a.g, b.g)])
+    if op is ast.Pow:
+        if all(y.is_point() and y.lo == 0.0 for y in b.g) and b.v.is_point():
+            p = b.v.lo
+            v = a.v ** p
+            if p == 0:
+                return D.const(1.0, n)
+            if float(p).is_integer():
+                dv = a.v ** (p - 1) * I(p)
+            else:
+                if a.v.lo <= 0:
+                    raise Unsupported("derivative of a non-integer power at a possibly non-positive base")
+                dv = a.v ** (p - 1) * I(p)
+            return D(v, [dv * x for x in a.g])
+        if a.v.lo <= 0:
+            raise Unsupported("general power with possibly non-positive base")
+        v = a.v ** b.v
+        lg = a.v.log()
+        return D(v, [v * (y * lg + b.v * x / a.v) for x, y in zip(a.g, b.g)])
+    raise Unsupported("dual operator")
+
+
+def d_func(f, a):
+    v = a.v
+    if f == "sin":
+        dv = v.cos()
+        out = v.sin()
+    elif f == "cos":
+        dv = -(v.sin())
+        out = v.cos()
+    elif f == "exp":
+        out = v.exp()
+        dv = out
+    elif f == "log":
+        out = v.log()
+        dv = v.recip()
+    elif f == "sqrt":
+        out = v.sqrt()
+        if v.lo <= 0:
+            raise Unsupported("derivative of sqrt at a possibly zero argument")
+        dv = (out * I(2.0)).recip()
+    elif f == "abs":
+        out = abs(v)
+        dv = I(1.0) if v.lo >= 0 else (I(-1.0) if v.hi <= 0 else I(-1.0, 1.0))
+    else:
+        raise Unsupported("dual function " + f)
+    return D(out, [dv * x for x in a.g])
+
+
 class Ret(Exception):
     def __init__(self, value):
         self.value = value
 
 
 def is_num(v):
-    return isinstance(v, (I, Aff, int, float)) and not isinstance(v, bool)
+    return isinstance(v, (I, Aff, D, int, float)) and not isinstance(v, bool)
 
 
 def as_iv(v):
@@ -103,6 +187,8 @@ def as_iv(v):
         return v
     if isinstance(v, Aff):
         return v.to_iv()
+    if isinstance(v, D):
+        return v.v
     if isinstance(v, bool):
         return I(float(v))
     if isinstance(v, (int, float)):
@@ -218,6 +304,8 @@ class Interp:
         if isinstance(n.op, ast.USub):
             if isinstance(v, Aff):
                 return v.scale(-1.0)
+            if isinstance(v, D):
+                return D(-v.v, [-x for x in v.g])
             return -v if not isinstance(v, bool) else -int(v)
         if isinstance(n.op, ast.UAdd):
             return v
@@ -230,7 +318,7 @@ class Interp:
 
     def e_BinOp(self, n, env):
         a, b = self.ev(n.left, env), self.ev(n.right, env)
-        if isinstance(n.op, ast.Mult) and isinstance(a, (I, Aff)) and isinstance(b, (I, Aff)) and text(n.left) == text(n.right) \
+        if isinstance(n.op, ast.Mult) and isinstance(a, (I, Aff)) and isinstance(b, (I, Aff)) and not isinstance(a, D) and text(n.left) == text(n.right) \
                 and not any(isinstance(c, ast.Call) and (access_path(c.func) or "").split(".")[-1] in ("uniform", "random") for c in ast.walk(n.left)):
             return as_iv(a).sqr()          # e * e with the same sub-expression is a square
         return self.binop(type(n.op), a, b, n)
@@ -242,6 +330,8 @@ class Interp:
             return list(a) * b
         if not (is_num(a) or isinstance(a, bool)) or not (is_num(b) or isinstance(b, bool)):
             raise Unsupported("operands of %s" % (text(n) if n is not None else op))
+        if isinstance(a, D) or isinstance(b, D):
+            return d_binop(op, a if isinstance(a, D) else as_iv(a), b if isinstance(b, D) else as_iv(b))
         if isinstance(a, Aff) or isinstance(b, Aff):
             def scalar(v):
                 if isinstance(v, bool):
@@ -333,8 +423,8 @@ class Interp:
             if isinstance(b, (list, tuple, dict, str)):
                 return (a in b) == (op is ast.In)
             raise Unsupported("membership test")
-        a = as_iv(a) if isinstance(a, Aff) else a
-        b = as_iv(b) if isinstance(b, Aff) else b
+        a = as_iv(a) if isinstance(a, (Aff, D)) else a
+        b = as_iv(b) if isinstance(b, (Aff, D)) else b
         if not isinstance(a, I) and not isinstance(b, I):
             return {ast.Lt: lambda: a < b, ast.LtE: lambda: a <= b, ast.Gt: lambda: a > b, ast.GtE: lambda: a >= b,
                     ast.Eq: lambda: a == b, ast.NotEq: lambda: a != b}[op]()
@@ -364,6 +454,8 @@ class Interp:
             return v
         if isinstance(v, Aff):
             v = v.to_iv()
+        if isinstance(v, D):
+            v = v.v
         if isinstance(v, I):
             if v.lo > 0 or v.hi < 0:
                 return True
@@ -444,7 +536,7 @@ class Interp:
             if isinstance(recv, list) and short == "append":
                 recv.append(args[0])
                 return None
-            if isinstance(recv, (I, Aff)) or isinstance(recv, (int, float)):
+            if isinstance(recv, (I, Aff, D)) or isinstance(recv, (int, float)):
                 # methods that plain Python floats do not have
                 self.float_methods.append((n, short))
                 if short in ("any", "all") and not args:
@@ -455,6 +547,8 @@ class Interp:
             if short in NP_FUNCS and len(args) == 1 and self.concrete_lib and not isinstance(args[0], (I, Aff)):
                 f = NP_FUNCS[short]
                 return abs(args[0]) if f == "abs" else getattr(math, f)(args[0])
+            if short in NP_FUNCS and len(args) == 1 and isinstance(args[0], D):
+                return d_func(NP_FUNCS[short], args[0])
             if short in NP_FUNCS and len(args) == 1:
                 v = args[0]
                 f = NP_FUNCS[short]
@@ -474,6 +568,8 @@ class Interp:
                 return getattr(math, short)(args[0])
             raise Unsupported("library call %s" % nm)
         if nm == "abs" and len(args) == 1:
+            if isinstance(args[0], D):
+                return d_func("abs", args[0])
             if isinstance(args[0], Aff):
                 return abs(args[0].to_iv())
             return abs(args[0]) if not isinstance(args[0], bool) else abs(int(args[0]))
@@ -494,7 +590,7 @@ class Interp:
         if nm == "sum" and len(args) >= 1:
             return self.sum(args[0], args[1] if len(args) > 1 else 0)
         if nm in ("float", "int") and len(args) == 1:
-            if isinstance(args[0], Aff):
+            if isinstance(args[0], (Aff, D)):
                 if nm == "int":
                     raise Unsupported("int() of an interval")
                 return args[0]
